@@ -707,7 +707,29 @@ func c12Run(r *Run) {
 			continue
 		}
 		key := funcKey(pkg, fd) + "#consults-base"
-		if len(baseCalls(fd)) > 0 {
+		// directly, or through helpers of the package it calls (resolveClass(name) (def, found, ctl))
+		var consults func(d *ast.FuncDecl, depth int) bool
+		consults = func(d *ast.FuncDecl, depth int) bool {
+			if d == nil || d.Body == nil || depth > 2 {
+				return false
+			}
+			if len(baseCalls(d)) > 0 {
+				return true
+			}
+			found := false
+			ast.Inspect(d.Body, func(n ast.Node) bool {
+				if c, ok := n.(*ast.CallExpr); ok && !found {
+					if cal := calleeFunc(pkg.TypesInfo, c); cal != nil && cal.Pkg() == pkg.Types {
+						if hd := declOf(pkg, cal); hd != nil && hd != d && consults(hd, depth+1) {
+							found = true
+						}
+					}
+				}
+				return !found
+			})
+			return found
+		}
+		if consults(fd, 0) {
 			r.ok(key, fd.Pos(), "the lookup consults the base VM")
 		} else {
 			r.bad(key, fd.Pos(), "the lookup never consults the base VM: names defined on the base VM are not resolvable through the TempVM")
